@@ -57,6 +57,13 @@ def make_cases(tier):
             skip = r.random() < 0.5
             prog = A.file([probe_stanza(1, pool[a], skip), probe_stanza(2, pool[b], skip)])
             cases += A.both_modes("c03p-%d-%d-%d" % (a, b, s), prog, s, visit=True)
+    # many matches in progress at once (a pattern pairing every statement with a later sibling, on a source with ~300 statements)
+    big = A.big_source()
+    pair_q = next(i for i, q in enumerate(pool) if "(pass_statement) @end" in q["q"])
+    ident_q = next(i for i, q in enumerate(pool) if q["q"].startswith("(identifier) @id"))
+    light = lambda i, q: A.stanza(q["q"], [A.let(A.var("u%d" % j), A.cap(c["name"])) for j, c in enumerate(q["caps"]) if not c["name"].startswith("_")])
+    cases += A.both_modes("c03big-3", A.file([light(1, pool[pair_q]), light(2, pool[pair_q]), light(3, pool[pair_q])]), big, visit=True)
+    cases += A.both_modes("c03big-4", A.file([light(1, pool[pair_q]), light(2, pool[ident_q]), light(3, pool[pair_q]), light(4, pool[pair_q])]), big, visit=True)
     # multi-stanza files (2-4 stanzas, repetitions allowed, shared capture names)
     nmulti = 60 if tier == "quick" else 1500
     for k in range(nmulti):
